@@ -261,6 +261,7 @@ fn eval_discr(e: &Expr) -> Option<i128> {
 }
 
 fn translate_unit(repo: &Path, u: &Unit, reg: &mut Registry) -> Res<String> {
+    reg.io.borrow_mut().unit_io = u.items.iter().any(|s| matches!(s, Sel::IoMode(_)));
     let mut files = vec![];
     let mut file_names: Vec<String> = vec![];
     for f in std::iter::once(&u.file).chain(u.more_files.iter()) {
@@ -550,8 +551,10 @@ fn translate_unit(repo: &Path, u: &Unit, reg: &mut Registry) -> Res<String> {
                 let u2 = units::units().into_iter().find(|x| x.module == *m).ok_or(format!("ExternUnit: no unit {}", m))?;
                 let was = reg.io.borrow().mode;
                 reg.io.borrow_mut().mode = false;
+                let was_unit = reg.io.borrow().unit_io;
                 let r = translate_unit(repo, &u2, reg);
                 reg.io.borrow_mut().mode = was;
+                reg.io.borrow_mut().unit_io = was_unit;
                 reg.files = Some(files.clone());
                 reg.helpers.borrow_mut().clear();
                 r.map_err(|e| format!("ExternUnit {}: {}", m, e))?;
